@@ -13,6 +13,9 @@ Definition schedule := list tid.
 Definition tid_eqb (a b : tid) : bool :=
   match a, b with P, P => true | C, C => true | _, _ => false end.
 
+Definition tid_eq_dec : forall a b : tid, {a = b} + {a <> b}.
+Proof. decide equality. Defined.
+
 Section Exec.
   Context {S : Type}.
   Variable step : tid -> S -> S.
@@ -53,6 +56,27 @@ Section Exec.
     - destruct Hin as [Hin|Hin]; [discriminate|].
       destruct (IH (step C s) (HC _ Hs) Hin) as (e1 & e2 & -> & HB).
       exists (C :: e1), e2. split; auto.
+  Qed.
+  (* k-step version: a rank that every P-step lowers by one and C-steps leave alone reaches 0
+     once the continuation contains k producer steps *)
+  Lemma within_P : forall (A : nat -> S -> Prop) (B : S -> Prop),
+    (forall k s, A (Datatypes.S k) s -> A (Datatypes.S k) (step C s)) ->
+    (forall k s, A (Datatypes.S k) s -> A k (step P s)) ->
+    (forall s, A O s -> B s) ->
+    forall ext k s, A k s -> (k <= count_occ tid_eq_dec ext P)%nat ->
+    exists e1 e2, ext = e1 ++ e2 /\ B (exec_from s e1).
+  Proof.
+    intros A B HC HP H0 ext; induction ext as [|t ext IH]; intros k s HA Hk.
+    - simpl in Hk. assert (k = O) by lia. subst. exists [], []. split; auto; simpl; auto.
+    - destruct k as [|k].
+      + exists [], (t :: ext). split; auto; simpl; auto.
+      + destruct t.
+        * simpl in Hk. destruct (tid_eq_dec P P) as [_|N]; [|congruence].
+          destruct (IH k (step P s) (HP _ _ HA)) as (e1 & e2 & E & HB); [lia|].
+          exists (P :: e1), e2. split; [simpl; congruence|exact HB].
+        * simpl in Hk. destruct (tid_eq_dec C P) as [N|_]; [discriminate|].
+          destruct (IH (Datatypes.S k) (step C s) (HC _ _ HA)) as (e1 & e2 & E & HB); [lia|].
+          exists (C :: e1), e2. split; [simpl; congruence|exact HB].
   Qed.
 End Exec.
 
